@@ -45,7 +45,7 @@ def oracle(case, replies):
 
 def gen_cases(rng, tier):
     if tier == "quick":
-        yield from ll.gen_ll_cases(rng, 1500, 4)
+        yield from ll.gen_ll_cases(rng, 3000, 4)
     else:
         yield from ll.gen_ll_cases(rng, 12000, 5, extra_long=10)
         yield from ll.tiny_grammars(rng, limit=20000)
